@@ -150,12 +150,12 @@ def harnesses(tier):
               'ids unbounded Int >= 0']
     q = tier == 'quick'
     hs = [
-        Harness('c02.recv_stream', recv_scenario([FA[:3] if q else FA, FB[:3] if q else FB], 2, 12 if q else 14, 1),
+        Harness('c02.recv_stream', recv_scenario([FA[:3] if q else FA, FB[:3] if q else FB], 2, 12, 1),
                 twin=recv_scenario([FA[:1], FB[:1]], 2, 12, 1, planted=True),
-                bounds={'sources': 2, 'forms': '3 x 3' if q else '4 x 5', 'publishes_per_source': 2, 'poll_decisions': 12 if q else 14, 'not_yet_answers': 1},
+                bounds={'sources': 2, 'forms': '3 x 3' if q else '4 x 5', 'publishes_per_source': 2, 'poll_decisions': 12, 'not_yet_answers': 1},
                 functions=fn, stubs=stubs, assumptions=assume, budget_s=600 if q else 1800),
-        Harness('c02.recv_stream.restarts', recv_scenario([FA[:2], FB[:2]], 2 if q else 3, 12 if q else 16, 0, restart=True, consumer_restart=True),
-                bounds={'sources': 2, 'forms': '2 x 2', 'publishes_per_source': 2 if q else 3, 'publisher_restarts': '<=1 per source (ids start over, any value)',
+        Harness('c02.recv_stream.restarts', recv_scenario([FA[:2], FB[:2] if q else FB[:3]], 2, 12 if q else 14, 0, restart=True, consumer_restart=True),
+                bounds={'sources': 2, 'forms': '2 x 2' if q else '2 x 3', 'publishes_per_source': 2, 'publisher_restarts': '<=1 per source (ids start over, any value)',
                         'consumer_restart': '<=1 (fresh ZMQReceiver, queued messages stay)'},
                 functions=fn, stubs=stubs, assumptions=assume, budget_s=600 if q else 1800),
         Harness('c02.dup_destination', dupdst_scenario, bounds={'forms': '3 x 3', 'id': 'unbounded'}, functions=fn, stubs=stubs, assumptions=assume, budget_s=120),
